@@ -57,6 +57,18 @@ CHECKS = {
     text="Model of loads in both analysis passes, the load-order check and run-time resolution, agreeing with the implementation on all 32 combinations placement {root, helper, kept function, data function} x producer {data function, keep} x order {before, after, earlier evaluation, never}, each with re-evaluation, producer edit and unrelated edit. Kernel-checked (stage 1): an ill-ordered evaluation returns the DDS error, runs nothing and leaves the store untouched (order_rejected); inside an evaluation a load of a path kept by this evaluation reads the blob under this evaluation's key, other paths resolve through the committed table (load_uses_own_key / load_uses_committed_key); a loaded path that does not resolve fails the analysis (load_must_resolve). Implementation oracle: loaded and returned values equal the dds-free run, kept readers re-execute iff the producer's result changed.",
     note="PARTIAL proof: reader_sig_tracks_producer as an iff needs the injectivity of signature composition (stage 2); the exhaustive combination matrix is decided by correspondence + oracle",
     technique="Lean 4 model + proved lemmas; exhaustive directed matrix of load placements/orders with three-way differential execution"),
+ "C17": dict(
+    text="Kernel-checked over the Lean model of CodecRegistry: a blob written with codec c is read back with c after ANY sequence of add_codec / add_file_codec registrations that does not bind c's reference to another codec (same_codec); add_file_codec never re-binds a reference (file_codecs_never_rebind); the string codec stores the UTF-8 text and is injective (text_verbatim); table theorems over Generated/Facts.lean re-read from the code on every run: which codec writes each result type (default_registry), every reference bound to a codec of its kind (reference_kinds). Correspondence: seeded registration sequences vs the real CodecRegistry. Oracle: every storable result type (empty/non-ASCII/1 MB text and bytes, None, objects, pandas frame, user type with user codec) round-trips through the local store in the same process, after re-prioritising registrations, and in a fresh process; blob and data-directory file are verbatim for str/bytes.",
+    note="pickle / parquet byte formats are trusted (exercised); a user codec must be registered in the reading process; sampled correspondence",
+    technique="Lean 4 proof (invariant over registration sequences) + facts tables regenerated from the code and proved by kernel evaluation + differential registry runs and end-to-end round trips"),
+ "C18": dict(
+    text="The Lean graphOf is the specification of the dependency graph (nodes = kept paths + paths loaded by kept functions; solid u->v iff v's function reaches the keep of u without crossing a kept function; dashed iff it loads u). Kernel-checked: export does not change result, store or signatures (export_no_effect); every kept path is a node (nodes_complete); the solid edges into a kept call are exactly its visible kept sub-nodes (solid_sources_are_heads). _plotting._structure and the exported DOT file are compared with graphOf and with an independent recomputation from the abstract program on every generated pipeline (nodes, solid, dashed exactly; dotted edges constrained; acyclicity checked), with and without export.",
+    note="PARTIAL: acyclicity and the exact edge characterisation of _structure itself are decided by the comparison, not proved; the specification, not the code, is what the theorems are about; pipelines with two paths under one signature are outside (DESIGN §6 #18)",
+    technique="Lean 4 specification + structural induction lemmas; differential comparison of _structure / exported DOT against the specification"),
+ "C19": dict(
+    text="Kernel-checked over the request-level Lean model of DBFSStore for every state and path->key map: 'none' changes nothing under the data directory (commit_none); 'links_only' updates exactly the redirect records (commit_links_only); 'full' succeeds when the blobs exist, records every path and maintains the invariant that every recorded path has a byte-identical copy of its blob (commit_full); a committed path resolves (committed_path_resolves). Tie B, re-proved from the code on every run: the three documented commit-type spellings are accepted with their documented meaning (documented_names_accepted), every reference of the DBFS registry incl. legacy dbfs.* is bound to a codec of its kind (legacy_alias_kind). Correspondence + oracle against an in-process fake of dbutils.fs: operation sequences x commit types (answers, copies, records), str/bytes/object results, legacy references decode to the written value, load works iff the record exists.",
+    note="the real DBFS is out of reach (fake dbutils over a local directory, trusted); one commit type per store lifetime; sampled correspondence",
+    technique="Lean 4 proof (induction over the committed map with an inductive invariant) + facts tables regenerated from the code + differential runs against a fake dbutils"),
 }
 NOT_YET = "check not built yet in this round (work in progress, see DESIGN.md §10)"
 
